@@ -101,6 +101,8 @@ pub struct EngineOut {
 pub struct VFile {
     pub path: String,
     pub data: Vec<u8>,
+    /// behaves like a pipe / FIFO / stdin: metadata reports a FIFO of size 0, seeking fails with ESPIPE
+    pub pipe: bool,
 }
 
 struct OpenFd {
@@ -187,7 +189,7 @@ impl World {
     }
 
     pub fn add_file(&mut self, path: &str, data: Vec<u8>) -> usize {
-        self.files.push(VFile { path: path.to_owned(), data });
+        self.files.push(VFile { path: path.to_owned(), data, pipe: false });
         self.files.len() - 1
     }
 
@@ -353,6 +355,10 @@ impl World {
     fn on_seek(&mut self, fd: i32, offset: i64, whence: i32) -> Option<i64> {
         let slot = self.fd_slot(fd)?;
         let file = self.fds[slot].file;
+        if self.files[file].pipe {
+            unsafe { *libc::__errno_location() = libc::ESPIPE; }
+            return Some(-1);
+        }
         let interrupted = self.fire_interrupt_if(false);
         let (_, landed) = self.take_step();
         let len = self.files[file].data.len();
@@ -703,6 +709,15 @@ fn virtual_mtime(data: &[u8]) -> i64 {
     1_700_000_000 + (h % 30_000_000) as i64
 }
 
+unsafe fn fill_statx_file(buf: *mut libc::statx, f: &VFile, ino: u64) {
+    fill_statx(buf, &f.data, ino);
+    if f.pipe {
+        (*buf).stx_mode = (libc::S_IFIFO | 0o600) as u16;
+        (*buf).stx_size = 0;
+        (*buf).stx_blocks = 0;
+    }
+}
+
 unsafe fn fill_statx(buf: *mut libc::statx, data: &[u8], ino: u64) {
     std::ptr::write_bytes(buf as *mut u8, 0, std::mem::size_of::<libc::statx>());
     (*buf).stx_mask = libc::STATX_BASIC_STATS;
@@ -729,7 +744,7 @@ pub unsafe extern "C" fn statx(dirfd: libc::c_int, path: *const libc::c_char, fl
                 if empty_path {
                     if let Some(slot) = w.fd_slot(dirfd) {
                         let file = w.fds[slot].file;
-                        fill_statx(buf, &w.files[file].data, 1000 + file as u64);
+                        fill_statx_file(buf, &w.files[file], 1000 + file as u64);
                         w.stat_calls += 1;
                         handled = Some(0);
                     }
@@ -737,7 +752,7 @@ pub unsafe extern "C" fn statx(dirfd: libc::c_int, path: *const libc::c_char, fl
                     let p = std::ffi::CStr::from_ptr(path).to_string_lossy().into_owned();
                     match w.files.iter().position(|f| f.path == p) {
                         Some(file) => {
-                            fill_statx(buf, &w.files[file].data, 1000 + file as u64);
+                            fill_statx_file(buf, &w.files[file], 1000 + file as u64);
                             w.stat_calls += 1;
                             handled = Some(0);
                         }
